@@ -29,7 +29,10 @@ THEOREMS = [
     "C13_periodic_rounded_algorithm_in_period_partial", "C13_periodic_binary64_correction_effective",
     "C13_periodic_unfixed_algorithm_refuted",
     "C13_axisymmetric_maps_to_radius", "C13_radius_unfixed_algorithm_refuted", "C13_vectors_rotated_by_toroidal_angle",
-    "C13_vectors_on_axis_and_everywhere",
+    "C13_vectors_on_axis_and_everywhere", "C13_periodic_nearest_rounding_in_period_partial",
+    "C13_periodic_binary64_fmod_core_exact", "C13_validation_policies_exact", "C13_point_and_lower_dimensional_samplers",
+    "C13_mask_is_parity_of_triangle_fan", "C13_mask_triangle_is_point_in_triangle",
+    "C13_routing_table_means_model", "C13_sampler_loops_refine_specification", "C13_periodic_source_program_means_models", "C13_constructor_checks_mean_policies", "C13_sampler_range_checks_mean_policy", "C13_periodic_rounded_algorithm_close_to_exact", "C13_vector_cylindrical_rotation_everywhere",
     "C13_linspace_even_with_both_end_points", "C13_sampler_entry_is_function_at_grid_point",
     "C13_mask_independent_of_vertex_order", "C13_mask_is_point_in_polygon_partial",
 ]
@@ -103,8 +106,29 @@ def run(ctx):
     ctx.proofs("Properties.C13", THEOREMS, extra_modules=("Model.C13_Check",))
 
     import cherab
-    from common import REPO
+    from common import REPO, coqc
     assert list(cherab.__path__) == [REPO + "/cherab"], cherab.__path__
+
+    # ---- tie (T): the routing table regenerated from the current .pyx sources equals the table the theorems are about ----
+    import c13_translate
+    try:
+        ttxt, tnames, tskipped = c13_translate.translate(REPO)
+        stxt, snames = c13_translate.translate_samplers(REPO)
+        rtxt = c13_translate.translate_remainder(REPO)
+        ctxt, cnames = c13_translate.translate_ctors(REPO)
+        tpath = ctx.write_gen("Tie.v", ttxt + stxt + rtxt + ctxt + "Lemma tie_ctors : generated_ctors = ctor_table.\nProof. vm_compute. reflexivity. Qed.\n"
+                              "Lemma tie_remainder : generated_remainder = source_remainder.\nProof. reflexivity. Qed.\n"
+                              "Lemma tie_samplers : generated_samplers = sampler_table.\nProof. vm_compute. reflexivity. Qed.\n"
+                              "Lemma tie_table : generated_table = source_table.\nProof. vm_compute. reflexivity. Qed.\n"
+                              "Lemma tie_not_in_table : generated_not_in_table = not_in_table.\nProof. reflexivity. Qed.\n")
+        tok, tout = coqc(tpath, timeout=600)
+        ctx.obligation("Gen tie: routing table regenerated from %d evaluate methods and loop-nest descriptors of %d samplers the program of periodic.pxd remainder and the argument checks of the 23 constructors regenerated "
+                       "from the current sources = Model/C13_Table.v source_table / sampler_table / source_remainder (kernel-checked, coq/Gen/C13/Tie.v)" % (len(tnames), len(snames)), "tie", tok, tout)
+    except c13_translate.TranslateError as e:
+        tnames, tskipped, snames = [], [], []
+        ctx.obligation("Gen tie: routing table regenerated from the current sources", "tie", False,
+                       "the translator does not recognise the source any more (fail-closed): %s" % e)
+        ctx.log("translator: %s" % e)
     from cherab.core.math import (IsoMapper2D, IsoMapper3D, Swizzle2D, Swizzle3D, AxisymmetricMapper,
                                   VectorAxisymmetricMapper, ClampInput1D, ClampInput2D, ClampInput3D,
                                   ClampOutput1D, ClampOutput2D, ClampOutput3D, Slice2D, Slice3D, PolygonMask2D,
@@ -632,7 +656,7 @@ def run(ctx):
             return tuple(tuple(p) for p in poly), "tuple_of_tuples"
         if k == 2:
             return arr, "float64_array"
-        if k == 3 and np.array_equal(arr.astype(np.float32).astype(np.float64), arr):
+        if k == 3 and np.abs(arr).max() < 3e38 and np.array_equal(arr.astype(np.float32).astype(np.float64), arr):
             return arr.astype(np.float32), "float32_array"
         if k == 4:
             return np.hstack([arr, np.full((len(poly), 1), 9.0)])[:, :2], "non_contiguous_view"
@@ -664,7 +688,7 @@ def run(ctx):
         if i % 8 == 7:
             # recorded outcome of the unchanged code: a Fortran-ordered vertex array is rejected with ValueError
             e = exc_name(lambda: PolygonMask2D(np.asfortranarray(np.array(poly))))
-            rejected_forms.append(("PolygonMask2D(Fortran-ordered Nx2 array)", e, "ValueError"))
+            rejected_forms.append(("PolygonMask2D: Fortran-ordered Nx2 vertex array", e, "ValueError"))
         mask = PolygonMask2D(verts)
         xs_, ys_ = [p[0] for p in poly0], [p[1] for p in poly0]
         size = max(max(xs_) - min(xs_), max(ys_) - min(ys_))
@@ -775,22 +799,23 @@ def run(ctx):
 
     # ---- argument forms the unchanged code rejects: the rejection is the recorded, expected outcome -------------------------
     rejected_forms += [
-        ("Swizzle3D(f, (2,0,1))('1', 2, 3)  (string argument)", exc_name(lambda: Swizzle3D(r3, (2, 0, 1))("1", 2, 3)), "TypeError"),
-        ("Swizzle2D(4.0)  (a number as the wrapped function)", exc_name(lambda: Swizzle2D(4.0)), "TypeError"),
-        ("ClampInput1D(None)(1.0)  (the clamp constructors do not check callability; the call fails)", exc_name(lambda: ClampInput1D(None)(1.0)), "TypeError"),
-        ("PeriodicTransform1D(f, '1')", exc_name(lambda: PeriodicTransform1D(r1, "1")), "TypeError"),
-        ("Slice2D(f, None, 1.0)", exc_name(lambda: Slice2D(r2, None, 1.0)), "ValueError"),
-        ("PolygonMask2D([])", exc_name(lambda: PolygonMask2D([])), "ValueError"),
-        ("PolygonMask2D(None)", exc_name(lambda: PolygonMask2D(None)), "TypeError"),
-        ("sample1d(f, [0., 1., 3])  (list instead of tuple)", exc_name(lambda: samplers.sample1d(r1, [0., 1., 3])), "TypeError"),
-        ("sample2d_points(f, zeros((2,3)))", exc_name(lambda: samplers.sample2d_points(r2, np.zeros((2, 3)))), "ValueError"),
-        ("sample3d_grid(f, [[1.,2.]], [1.], [2.])  (2-D axis)", exc_name(lambda: samplers.sample3d_grid(r3, [[1., 2.]], [1.], [2.])), "ValueError"),
+        ("Swizzle3D call: string argument", exc_name(lambda: Swizzle3D(r3, (2, 0, 1))("1", 2, 3)), "TypeError"),
+        ("Swizzle2D: a number as the wrapped function", exc_name(lambda: Swizzle2D(4.0)), "TypeError"),
+        ("ClampInput1D(None): constructed, the call fails", exc_name(lambda: ClampInput1D(None)(1.0)), "TypeError"),
+        ("PeriodicTransform1D: string period", exc_name(lambda: PeriodicTransform1D(r1, "1")), "TypeError"),
+        ("Slice2D: axis None", exc_name(lambda: Slice2D(r2, None, 1.0)), "ValueError"),
+        ("PolygonMask2D: empty vertex list", exc_name(lambda: PolygonMask2D([])), "ValueError"),
+        ("PolygonMask2D: None", exc_name(lambda: PolygonMask2D(None)), "TypeError"),
+        ("sample1d: list instead of range tuple", exc_name(lambda: samplers.sample1d(r1, [0., 1., 3])), "TypeError"),
+        ("sample2d_points: Nx3 points", exc_name(lambda: samplers.sample2d_points(r2, np.zeros((2, 3)))), "ValueError"),
+        ("sample3d_grid: 2-D axis array", exc_name(lambda: samplers.sample3d_grid(r3, [[1., 2.]], [1.], [2.])), "ValueError"),
     ]
     ro_ = np.arange(3.0)
     ro_.setflags(write=False)
-    rejected_forms.append(("sample1d_points(f, read-only array)", exc_name(lambda: samplers.sample1d_points(r1, ro_)), "ValueError"))
+    rejected_forms.append(("sample1d_points: read-only array", exc_name(lambda: samplers.sample1d_points(r1, ro_)), "ValueError"))
     for label, e, want in rejected_forms:
-        C.add("forms_rejected", label.split("(")[0], "true", {"call": label, "raised": e, "recorded_outcome_of_unchanged_code": want}, e == want,
+        C.add("forms_rejected", label.split(":")[0], 'chk_form "%s"%%string %s' % (label, ERR.get(e, "(Some ErrOther)")),
+              {"call": label, "raised": e, "recorded_outcome_of_unchanged_code": want}, e == want,
               "%s: recorded outcome %s, observed %s" % (label, want, e))
 
     # ---- run the correspondence in Coq ---------------------------------------------------------------------------------------
@@ -849,6 +874,7 @@ def run(ctx):
                 "values, bounds hit exactly, NaN/inf for clamps, branch cut of atan2, rays through vertices, n = 1) : %d" % nontriv,
         "distribution": {"by_family": fam, "by_family_and_class": dict(sorted(C.dist.items())),
                          "argument_forms_and_live_objects": form_stats,
+                         "routing_table_classes_regenerated_from_source": tnames, "sampler_descriptors_regenerated_from_source": snames, "classes_not_expressible_in_table": tskipped,
                          "mask_points_skipped_as_ambiguous(within 2^-20 of an edge)": n_amb,
                          "radius_cases_with_overflowing_or_underflowing_squares": sum(
                              1 for m in C.meta if m["family"].startswith("radius") and m["cls"] in ("huge", "tiny"))},
@@ -857,13 +883,34 @@ def run(ctx):
                       "periodic vs exact reduction": "2^-52 * period", "rotated vector": "2^-40 of the largest component (libm cos/sin, rotate_z); exact on the axis with x = +0 (no rotation); subnormal-near-zero points are scaled by 2^1000 exactly before forming (x/r, y/r)",
                       "linspace interior points": "2^-48 of max(|a|,|b|); end points exact", "mask": "exact boolean at points with margin >= 2^-20 size",
                       "constructor errors": "exact"},
-        "partial": ["the range theorem 0 <= r < period for the binary64 algorithm is proved for an abstract monotone rounding, not derived "
-                    "from the IEEE semantics of PrimFloat.add (no Flocq available); the bit-exact PrimFloat model is tied by correspondence "
+        "compared_inside_coq": [
+            ["arguments received by the wrapped callable of Swizzle2D/3D, Slice2D/3D, IsoMapper2D/3D (inner and outer function), "
+             "ClampInput1D/2D/3D, nested wrappers, wrapper + 0.0", "model routing on primitive binary64", "bit for bit"],
+            ["value returned by ClampOutput1D/2D/3D and by wrappers around raysect Arg / constant functions", "clamp_F / routing", "bit for bit"],
+            ["inner argument of the six periodic wrappers", "remainder_F (fmod_int + add + next_down)", "bit for bit; and 0 <= r < p; and |r - (x - p floor(x/p))| <= 2^-52 p"],
+            ["radius handed to the wrapped function by the four axisymmetric / cylindrical wrappers", "accurate_radius on exact squares",
+             "|r - sqrt(x^2+y^2)| <= max(2^-51 r, 2^-1074), r finite"],
+            ["z handed through by those wrappers", "identity", "bit for bit"],
+            ["angle handed to the wrapped function by the two cylindrical wrappers", "chk_quadrant (rational enclosure of pi)",
+             "quadrant exact; signed-zero branch exact; the value itself only bitwise against Python math.atan2 in the search"],
+            ["vector returned by the two vector wrappers", "rotz (x/rho, y/rho) v", "2^-40 of the largest component; exact on the axis with x = +0"],
+            ["axes returned by the range samplers", "linspace", "end points exact, interior 2^-48 max(|a|,|b|)"],
+            ["entry [i][j][k] (all three components for vector samplers are checked in the search) of all 14 samplers", "sample1d/2d/3d, *_points", "exact"],
+            ["PolygonMask2D value", "point_in_polygon (even-odd crossing)", "exact, at points >= 2^-20 size from every edge"],
+            ["exception (or none) of every constructor / sampler range / recorded rejected form", "*_validate, form_policy", "exact"],
+            ["routing table of 23 evaluate methods, argument checks of 23 __init__ methods, loop-nest descriptors of 14 samplers and the "
+             "program of the inline remainder() of periodic.pxd, regenerated from the current .pyx/.pxd sources", "Model/C13_Table.v source_table / ctor_table / sampler_table / source_remainder", "syntactic equality, kernel-checked (coq/Gen/C13/Tie.v)"],
+        ],
+        "partial": ["the range theorem 0 <= r < period for the binary64 algorithm is proved for any rounding that is round-to-nearest BY DEFINITION "
+                    "(and, separately, for any monotone rounding); the integer core of the binary64 fmod is proved exact; what is not derived is that "
+                    "PrimFloat.add is such a rounding (IEEE / FloatAxioms.add_spec + rounding theory, no Flocq available); the bit-exact PrimFloat model is tied by correspondence "
                     "and checked against the range claim on every periodic case",
                     "atan2 / cos / sin are oracles: theorems are stated for the rotation given by (x/r, y/r); the angle itself is checked only "
                     "for its quadrant and, through the rotated vector, within 2^-40",
-                    "point-in-polygon is the even-odd crossing rule; that the crossing rule equals geometric interior (Jordan) is proved only "
-                    "for rectangles (all positions), plus invariance under vertex rotation/reversal for all polygons"],
+                    "point-in-polygon is the even-odd crossing rule; crossing rule = geometric interior is proved for all triangles (either "
+                    "orientation, points off the edge lines) and all rectangles, the crossing rule of any polygon is proved to be the parity of "
+                    "a fan of triangles and invariant under vertex rotation/reversal/translation; that a simple polygon's interior points lie "
+                    "in an odd number of fan triangles (Jordan / triangulation) is not proved"],
     })
     ctx.coverage["samples"] = [C.meta[0], next((m for m in C.meta if m["family"] == "periodic"), C.meta[-1])]
     ctx.grep_gate()
